@@ -241,5 +241,20 @@ func (r *secretReader) Read(p []byte) (n int, err error) {
 
 func (s *TrackSecret) NewReader() io.Reader { return &secretReader{s: s} }
 
+// Owns reports whether b is (part of) the memory of one of the factory's secrets rather than a copy of it.
+func (f *TrackFactory) Owns(b []byte) bool {
+	if len(b) == 0 {
+		return true
+	}
+	for _, s := range f.Secrets {
+		for i := range s.bytes {
+			if &s.bytes[i] == &b[0] {
+				return true
+			}
+		}
+	}
+	return false
+}
+
 // PeekBytes returns the key bytes without any accounting (oracles only).
 func (s *TrackSecret) PeekBytes() []byte { return s.bytes }
